@@ -517,71 +517,77 @@ def run_seq(spec, ops, cov, out, ctx):
 
 # ------------------------------------------------------------------------------------------------ workloads
 def scripted(name, topo):
+    """clause scenarios; slot 0 of each client is its long-lived connection, extras are trimmed with ('disconnect', c, 'extra')"""
     T = ("tick",)
     C1R, C2R = ("connect", "c1", "right"), ("connect", "c2", "right")
-    probe_all = [("connect", "c1", "right"), ("connect", "c2", "wrong_other"), ("query", "c1", 0, "SELECT"), ("query", "c1", 0, "INSERT"),
-                 ("raw", "c1", "SELECT", "own_open"), ("raw", "c2", "INSERT", "never"), ("raw", "c1", "DELETE", "never"), ("native", "c2"),
-                 ("nquery", "c2", "SELECT"), ("restore",), ("backup",), ("red", "c2", "ransom")]
-    if name == "capacity":
-        return [C1R, C1R, C2R, C2R, C1R, ("disconnect", "c1", 0), C2R, C1R, ("restore",), T, ("restore",), C2R, C1R, C1R,
-                ("disconnect", "c2", 0), ("disconnect", "c1", 1), ("restore",), C1R, C2R, C2R, ("query", "c1", 1, "SELECT")]
+    Q = lambda c, sql, slot=0: ("query", c, slot, sql)  # noqa: E731
+    TRIM = [("disconnect", "c1", "extra"), ("disconnect", "c2", "extra")]
+    probe_all = [C1R, ("connect", "c2", "wrong_other"), Q("c1", "SELECT"), Q("c1", "INSERT"), Q("c2", "DELETE"),
+                 ("raw", "c1", "SELECT", "own_open"), ("raw", "c2", "INSERT", "never"), ("raw", "c1", "DELETE", "never"),
+                 ("raw", "c2", "SELECT", "closed"), ("native", "c2"), ("nquery", "c2", "SELECT"), ("restore",), ("backup",),
+                 ("red", "c2", "ransom"), ("red", "c1", "dmb")]
+    check_up = [("restore",), Q("c1", "SELECT"), Q("c2", "SELECT"), C2R, Q("c2", "SELECT", "last")] + TRIM
+    if name == "capacity":  # run with max_sessions 3 and 2
+        return [T, C1R, C1R, C2R, C2R, C1R, ("disconnect", "c1", "last"), C2R, C1R, Q("c1", "SELECT"), ("restore",), T, Q("c1", "SELECT"), C2R, C1R, C1R,
+                ("disconnect", "c2", 0), ("disconnect", "c1", 0), ("restore",), C1R, C2R, C2R, Q("c1", "SELECT", "last"), ("native", "c2"),
+                ("uninstall", "c1"), C2R, C2R, ("restore",), C2R, C2R, C2R, Q("c2", "SELECT", "last")]
     if name == "password":
         seq = []
         for k in PW_KINDS:
             seq += [("connect", "c1", k), ("connect", "c2", k)]
-        seq += [("connect", "c1", "wrong_sub"), ("svc", "restart"), ("connect", "c1", "wrong_sub"), ("connect", "c1", "right"), T,
-                ("connect", "c1", "wrong_super"), T, T, ("connect", "c1", "wrong_case"), ("connect", "c1", "right"), ("query", "c1", 0, "SELECT"),
-                ("power", "srv", "shutdown"), T, T, ("connect", "c2", "wrong_sub"), ("power", "srv", "startup"), T, T,
-                ("connect", "c2", "none"), ("connect", "c2", "wrong_sub"), ("connect", "c2", "right"), ("query", "c2", 0, "SELECT")]
+        seq += TRIM
+        seq += [("connect", "c1", "wrong_sub"), ("svc", "restart"), ("connect", "c1", "wrong_sub"), C1R, T,
+                ("connect", "c1", "wrong_super"), T, T, ("connect", "c1", "wrong_case"), C1R, Q("c1", "SELECT", "last"),
+                ("power", "srv", "shutdown"), T, T, ("connect", "c2", "wrong_sub"), C2R, ("power", "srv", "startup"), T, T,
+                ("connect", "c2", "none"), ("connect", "c2", "wrong_sub"), ("connect", "c2", "empty"), C2R, Q("c2", "SELECT", "last")]
         return seq
     if name == "damage":
-        return [C1R, T, ("query", "c1", 0, "SELECT"), ("query", "c1", 0, "DELETE"), ("query", "c1", 0, "SELECT"), ("query", "c1", 0, "INSERT"),
-                ("query", "c1", 0, PG), ("repair",), ("query", "c1", 0, "SELECT"), ("restore",), ("query", "c1", 0, "SELECT"),
-                ("query", "c1", 0, "ENCRYPT"), ("query", "c1", 0, "SELECT"), ("repair",), ("query", "c1", 0, "SELECT"),
-                ("query", "c1", 0, "ENCRYPT"), ("restore",), ("query", "c1", 0, "SELECT"), ("query", "c1", 0, "DELETE"), ("svc", "fix"),
-                ("query", "c1", 0, "SELECT"), T, ("query", "c1", 0, "SELECT"), T, T, ("query", "c1", 0, "SELECT"),
-                ("query", "c1", 0, "DROP TABLE users"), ("query", "c1", 0, "DELETE"), ("query", "c1", 0, "ENCRYPT"), ("query", "c1", 0, "SELECT"),
-                ("restore",), ("query", "c1", 0, "SELECT"), ("query", "c1", 0, "ENCRYPT"), ("query", "c1", 0, "DELETE"), ("restore",),
-                ("query", "c1", 0, "SELECT")]
-    if name == "late-backup":
-        return [C1R, ("query", "c1", 0, "DELETE"), T, ("restore",), ("query", "c1", 0, "SELECT"), ("backup",), ("query", "c1", 0, "ENCRYPT"),
-                ("backup",), ("restore",), ("query", "c1", 0, "SELECT")]
+        return [C1R, T, Q("c1", "SELECT"), Q("c1", "DELETE"), Q("c1", "SELECT"), Q("c1", "INSERT"), Q("c1", PG), ("repair",), Q("c1", "SELECT"),
+                ("restore",), Q("c1", "SELECT"), Q("c1", "ENCRYPT"), Q("c1", "SELECT"), ("repair",), Q("c1", "SELECT"), Q("c1", "ENCRYPT"), ("restore",),
+                Q("c1", "SELECT"), Q("c1", "DELETE"), ("svc", "fix"), Q("c1", "SELECT"), T, Q("c1", "SELECT"), T, T, Q("c1", "SELECT"),
+                Q("c1", "DROP TABLE users"), Q("c1", "DELETE"), Q("c1", "ENCRYPT"), Q("c1", "SELECT"), ("restore",), Q("c1", "SELECT"),
+                Q("c1", "ENCRYPT"), Q("c1", "DELETE"), Q("c1", "SELECT"), ("restore",), Q("c1", "SELECT"), ("nquery", "c1", "DELETE"), ("nquery", "c1", "SELECT"),
+                ("native", "c1"), ("nquery", "c1", "DELETE"), ("nquery", "c1", "SELECT"), ("restore",), ("nquery", "c1", "SELECT")]
+    if name == "late-backup":  # first backup taken while the data is damaged: restore is not judged, second backup is refused (diagnostics)
+        return [C1R, Q("c1", "DELETE"), T, ("restore",), Q("c1", "SELECT"), ("backup",), Q("c1", "ENCRYPT"), ("backup",), ("restore",), Q("c1", "SELECT")]
     if name == "down":
-        seq = [C1R, C2R, T]
+        seq = [C1R, C2R, C2R, T, ("disconnect", "c2", "last")]
         for down, up, nt in ((("svc", "stop"), ("svc", "start"), 0), (("svc", "pause"), ("svc", "resume"), 0), (("svc", "restart"), T, 2),
-                             (("power", "srv", "shutdown"), ("power", "srv", "startup"), 2), (("svc", "fix"), T, 2)):
-            seq += [down] + probe_all + [T] + probe_all[:6] + [up] + [T] * nt + [("restore",), ("query", "c1", 0, "SELECT"), ("connect", "c2", "right"),
-                                                                             ("disconnect", "c2", 1), ("disconnect", "c1", 1)]
+                             (("power", "srv", "shutdown"), ("power", "srv", "startup"), 2), (("svc", "fix"), T, 3)):
+            seq += [down] + probe_all + [T] + probe_all[:9] + [up] + [T] * nt + check_up
         return seq
     if name == "hosts":
-        return [C1R, C2R, T, ("power", "bak", "shutdown"), T, T, ("restore",), ("backup",), ("query", "c1", 0, "DELETE"), ("restore",),
-                ("power", "bak", "startup"), T, T, ("restore",), ("query", "c1", 0, "SELECT"), ("power", "c1", "shutdown"), T, T,
-                ("query", "c1", 0, "SELECT"), ("connect", "c1", "right"), ("raw", "c2", "SELECT", "other_open"), ("power", "c1", "startup"), T, T,
-                ("query", "c1", 0, "SELECT"), ("disconnect", "c1", 0), ("raw", "c2", "SELECT", "closed"), ("raw", "c1", "INSERT", "closed")]
+        return [C1R, C2R, T, ("power", "bak", "shutdown"), T, T, ("restore",), ("backup",), Q("c1", "DELETE"), ("restore",), Q("c1", "SELECT"),
+                ("svc", "fix"), T, T, T, Q("c1", "SELECT"), ("power", "bak", "startup"), T, T, ("restore",), Q("c1", "SELECT"),
+                ("power", "c1", "shutdown"), T, T, Q("c1", "SELECT"), C1R, ("raw", "c2", "SELECT", "other_open"), ("raw", "c1", "SELECT", "own_open"),
+                ("power", "c1", "startup"), T, T, Q("c1", "SELECT"), ("disconnect", "c1", 0), ("raw", "c2", "SELECT", "closed"),
+                ("raw", "c1", "INSERT", "closed"), ("raw", "c1", "DELETE", "closed"), Q("c1", "SELECT")]
     if name == "blocked":
-        seq = [C1R, C2R, T]
+        seq = [C1R, C2R, C2R, T, ("disconnect", "c2", "last")]
         for k in ("all", "pg", "ftp", "src:c1", "src:c2"):
-            seq += [("acl", k)] + probe_all + [("red", "c1", "dmb"), ("disconnect", "c1", 1), ("acl", "none"), ("restore",), ("query", "c1", 0, "SELECT"),
-                                               ("query", "c2", 0, "SELECT"), ("raw", "c2", "SELECT", "closed"), ("disconnect", "c2", 1), ("disconnect", "c2", 2)]
+            # a connection opened before the block and dropped by its client during the block stays open at the server
+            seq += [C2R, ("acl", k)] + probe_all + [("disconnect", "c2", "last"), ("acl", "none")] + check_up
+            seq += [("raw", "c1", "SELECT", "other_open"), ("raw", "c1", "SELECT", "closed")]
         return seq
     if name == "uninstall":
         return [C2R, C2R, C1R, T, ("uninstall", "c2"), ("raw", "c1", "SELECT", "closed"), ("raw", "c1", "INSERT", "closed"), ("raw", "c1", "DELETE", "closed"),
-                ("raw", "c1", "ENCRYPT", "closed"), ("raw", "c1", PG, "closed"), ("query", "c2", 0, "SELECT"), ("connect", "c2", "right"), ("install", "c2"),
-                ("connect", "c2", "right"), T, T, T, ("connect", "c2", "right"), ("query", "c2", 0, "SELECT"), ("query", "c2", 2, "SELECT"),
-                ("svc", "stop"), ("uninstall", "c2"), ("svc", "start"), ("raw", "c1", "SELECT", "other_open"), ("install", "c2"), T, T, T, C2R, C2R, C2R]
+                ("raw", "c1", "ENCRYPT", "closed"), ("raw", "c1", PG, "closed"), Q("c2", "SELECT"), C2R, ("install", "c2"), C2R, T, T, T, C2R,
+                Q("c2", "SELECT", 0), Q("c2", "SELECT", "last"), ("svc", "stop"), ("uninstall", "c2"), ("svc", "start"),
+                ("raw", "c1", "SELECT", "other_open"), ("raw", "c1", "SELECT", "closed"), ("install", "c2"), T, T, T, C2R, C2R, Q("c2", "SELECT", "last")]
     if name == "forged":
-        seq = [C1R, C2R, T, ("disconnect", "c2", 0)]
+        seq = [C1R, C2R, C2R, T, ("disconnect", "c2", "last")]
         for s in SQLS:
             for k in ("never", "closed", "none"):
                 seq += [("raw", "c1", s, k), ("raw", "c2", s, k)]
-        seq += [("query", "c1", 0, "SELECT"), ("raw", "c1", "DELETE", "own_open"), ("restore",), ("raw", "c2", "ENCRYPT", "other_open"), ("restore",)]
+        seq += [Q("c1", "SELECT"), ("raw", "c1", "DELETE", "own_open"), ("raw", "c1", "SELECT", "never"), ("restore",),
+                ("raw", "c2", "ENCRYPT", "other_open"), ("raw", "c2", "INSERT", "closed"), ("restore",), Q("c1", "SELECT")]
         return seq
-    if name == "red":
-        return [T, ("red", "c1", "dmb"), ("query", "c1", 0, "SELECT"), C2R, ("query", "c2", 0, "SELECT"), ("restore",), ("query", "c2", 0, "SELECT"),
-                ("red", "c2", "ransom"), ("query", "c2", 0, "SELECT"), ("restore",), ("red", "c1", "dmb"), ("red", "c1", "dmb"), ("svc", "fix"), T, T,
-                ("query", "c2", 0, "SELECT"), ("svc", "stop"), ("red", "c1", "dmb"), ("red", "c2", "ransom"), ("svc", "start"), ("power", "srv", "shutdown"),
-                T, T, ("red", "c1", "dmb"), ("red", "c2", "ransom"), ("power", "srv", "startup"), T, T, ("red", "c2", "ransom"), ("restore",),
-                ("uninstall", "c1"), ("red", "c1", "dmb"), ("query", "c2", 0, "SELECT")]
+    if name == "red":  # run with the bots holding the right and a wrong password
+        return [C2R, T, ("red", "c1", "dmb"), Q("c2", "SELECT"), ("restore",), Q("c2", "SELECT"), ("red", "c2", "ransom"), Q("c2", "SELECT"), ("restore",),
+                ("red", "c1", "dmb"), ("red", "c1", "dmb"), ("svc", "fix"), T, T, T, Q("c2", "SELECT"), ("svc", "stop"), ("red", "c1", "dmb"),
+                ("red", "c2", "ransom"), ("svc", "start"), ("power", "srv", "shutdown"), T, T, ("red", "c1", "dmb"), ("red", "c2", "ransom"),
+                ("power", "srv", "startup"), T, T, ("red", "c2", "ransom"), ("restore",), ("uninstall", "c1"), ("red", "c1", "dmb"), Q("c2", "SELECT"),
+                ("install", "c1"), T, T, T, ("red", "c1", "dmb"), Q("c2", "SELECT"), ("restore",), Q("c2", "SELECT")]
     raise ValueError(name)
 
 
@@ -711,8 +717,8 @@ class Check:
             for name in SCRIPTS:
                 if name == "blocked" and spec["topo"] != "routed":
                     continue
-                for ms, bot_pw in ((3, spec["pw"]), (2, "stolen-wrong")):
-                    if bot_pw != spec["pw"] and name != "red":
+                for ms, bot_pw in ((3 if name == "capacity" else 8, spec["pw"]), (2 if name == "capacity" else 8, "stolen-wrong")):
+                    if bot_pw != spec["pw"] and name not in ("red", "capacity"):
                         continue
                     ss = {"name": spec["name"], "topo": spec["topo"], "pw": spec["pw"], "bot_pw": bot_pw, "dur": spec["dur"], "max_sessions": ms,
                           "restart_d": 1, "fix_d": 2}
